@@ -12,9 +12,6 @@ NA = {
     "C08": "Static analysis not applicable: argument binding correctness is a function of runtime argument tuples "
            "evaluated by one loop nest (collect_slow); path/shape rules cannot tell a right from a wrong index "
            "comparison; the finite space calls for enumeration or model checking, not static analysis.",
-    "C19": "Static analysis not applicable: UTF-16 range well-formedness and agreement of the IDE resolver with the "
-           "compiler's resolver are value-level relations between two tree walks; a sound static comparison of the "
-           "two resolvers is out of reach.",
 }
 
 NOT_BUILT = "check not built yet in this session (see DESIGN.md for the planned rules); not claimed until it exists"
@@ -177,6 +174,18 @@ CLAIMS = {
             "Chunk::drop decrements with SeqCst/AcqRel and deallocates only when the previous count was 1.",
             "Not decided: absence of data races under real interleavings. Trusted: reviewed tables, rustc Freeze query.",
             "DESIGN.md section 2, C20"),
+    "C19": ("dataflow from the internal character column (ResolvedPos.column) into lsp_types::Position.character "
+            "and back, requiring a UTF-16 conversion on the way",
+            "One clause only ('ranges denote positions under the protocol's UTF-16 column convention'): every "
+            "lsp_types::Position built from an internal column, and every client position used as an internal column, "
+            "must pass through a UTF-16 conversion. Today none does: a genuine defect (known finding, demonstrated on "
+            "a document with a non-BMP character); the check reports it as KNOWN-FINDING and would report any new "
+            "unconverted site.",
+            "Not decided: that the server never crashes or hangs, and agreement of go-to-definition with the "
+            "compiler's scope resolver (value-level relations between two tree walks). The quick tier sees the "
+            "conversion in starlark_syntax; the starlark_lsp sites are analysed in the thorough tier (configuration "
+            "`full`). Trusted: rustc front end, svfacts.",
+            "DESIGN.md section 8.6"),
 }
 
 
